@@ -155,6 +155,16 @@ def rec_pairs(seed):
                     wimg += ti
             d3 = d.copy(); d3[wimg == 0] = -7e5
             pair('independent_of_zero_weight_pixel_values', ap.do_photometry(d3, error=e, **kw)[0], fa)
+        # area_overlap is the sum of the mask weights over the counted pixels - for every shape (the 'exact' weights of rectangles are a
+        # 32 x 32 sub-sampling, so this is not the analytic area), with and without a mask argument
+        for apx in (A.RectangularAperture([(w / 2.0 + 0.3, h / 2.0 - 0.2), pos[0]], r * 1.3, r * 0.9, theta=0.4),
+                    A.RectangularAnnulus([(w / 2.0 - 0.4, h / 2.0 + 0.1)], r * 0.7, r * 1.5, r * 1.1, theta=-0.3), ap):
+            for mm in (None, m):
+                wsum = []
+                for am in apx.to_mask(method=method, subpixels=sub):
+                    ti = am.to_image((h, w))
+                    wsum.append(np.nan if ti is None else float(ti[~mm].sum() if mm is not None else ti.sum()))
+                pair('area_overlap_is_sum_of_weights_over_counted_pixels', np.atleast_1d(apx.area_overlap(d, mask=mm, method=method, subpixels=sub)) * 256.0, np.array(wsum) * 256.0, tol=2)      # compared at 2^-17
         # one aperture object used repeatedly with different masks gives what fresh objects give
         ap_r = mk(pos)
         m_a = np.zeros((h, w), dtype=bool); m_a[::2, ::3] = True
